@@ -2,9 +2,12 @@
 //
 // part "tsan"  (ThreadSanitizer flavour, free-running real threads): T in {2,3,4,8,16} threads,
 //   each constructs its own Stepper (stream t) on ONE shared CoreParams - concurrently, the way
-//   celer-sim's Runner::get_transporter does - and transports its assigned events; all
-//   assignments of 3 events to 2 and to 3 streams are enumerated, larger T get one event per
-//   stream.  Oracles: (1) no ThreadSanitizer report whose stack touches /repo/src;
+//   celer-sim's Runner::get_transporter does (the pattern is modelled here; Runner.cc /
+//   Transporter.cc themselves are not compiled into the harness) - and transports its assigned
+//   events; all assignments of 3 events to 2 and to 3 streams are enumerated, larger T get one
+//   event per stream, once with the identity assignment and once rotated by one (event e on
+//   stream (e+1) mod T).  Variants: see c07_common.hh (recorder / calorimeter / re-indexing by
+//   particle type / by action / field+MSC along-step / StatusChecker).  Oracles: (1) no ThreadSanitizer report whose stack touches /repo/src;
 //   (2) every event's per-track step history equals the serial single-stream reference;
 //   (3) diagnostic / calorimeter tallies equal the serial sums.
 // part "sched" (see below) explores thread schedules exhaustively with a cooperative scheduler.
@@ -14,7 +17,61 @@
 #include <sstream>
 #include <thread>
 
+#include <chrono>
+#include <condition_variable>
+#include <cstring>
+#include <mutex>
+
+#include "corecel/sys/VerifHooks.hh"
 #include "harness/c07_common.hh"
+
+//---------------------------------------------------------------------------//
+// Rendezvous at the begin-run hooks: ThreadSanitizer reports two accesses only if no
+// happens-before path joins them, and on a busy machine one thread easily finishes its whole
+// Stepper construction (including incidental synchronisation such as shared_ptr reference
+// counts) before the next one starts.  All T threads therefore wait for each other right before
+// their k-th begin-run action (CELERITAS_VERIF hook "begin-run-action"), so that the begin-run
+// actions of the shared, mutable action objects really are executed side by side.
+// The same is done for the first `rv_step_hooks` step actions of every thread that transports
+// at least one event ("step-action" hook): the k-th step action is then executed by all busy
+// streams at the same time (same action, shared action object), which is where a static / a
+// mutable scratch buffer in a shared object is hit from two threads.
+static constexpr unsigned rv_begin_slots = 16, rv_step_hooks = 32;
+static unsigned g_rv_arrived[rv_begin_slots + rv_step_hooks];  // guarded by g_rv_mutex
+static std::mutex g_rv_mutex;
+static std::condition_variable g_rv_cv;
+static std::atomic<unsigned> g_rv_threads{0}, g_rv_busy_threads{0};
+static thread_local unsigned tl_rv_index = 0, tl_rv_step_index = 0;
+
+static void rendezvous_hook(char const* tag)
+{
+    unsigned need = 0, k = 0;
+    if (std::strcmp(tag, "begin-run-action") == 0)
+    {
+        need = g_rv_threads.load(std::memory_order_relaxed);
+        k = tl_rv_index++;
+        if (k >= rv_begin_slots)
+            return;
+    }
+    else if (std::strcmp(tag, "step-action") == 0)
+    {
+        need = g_rv_busy_threads.load(std::memory_order_relaxed);
+        k = tl_rv_step_index++;
+        if (k >= rv_step_hooks)
+            return;
+        k += rv_begin_slots;
+    }
+    if (need < 2)
+        return;
+    // blocking (no spinning: the machine may be oversubscribed); never waits longer than
+    // 200 ms so that a thread that failed earlier cannot hang the others
+    std::unique_lock<std::mutex> lock(g_rv_mutex);
+    if (++g_rv_arrived[k] >= need)
+        g_rv_cv.notify_all();
+    else
+        g_rv_cv.wait_for(lock, std::chrono::milliseconds(200),
+                         [&] { return g_rv_arrived[k] >= need; });
+}
 
 //---------------------------------------------------------------------------//
 // ThreadSanitizer report parsing (text log written through TSAN_OPTIONS=log_path=...)
@@ -115,6 +172,55 @@ static std::vector<RaceReport> read_tsan_reports()
             r.signature = "tsan:" + kind;
             for (size_t i = 0; i < tops.size() && i < 2; ++i)
                 r.signature += "|" + tops[i];
+            // One specific defect gets its own signature: StatusChecker::begin_run_impl
+            // rebuilds the SHARED params (`data_`) for every stream without synchronisation.
+            // Only reports in which EVERY access stack lies inside StatusChecker code and at
+            // least one is the rebuild itself qualify; anything else keeps the generic
+            // signature above.
+            {
+                std::istringstream is2(b);
+                bool in_access = false, any_access = false, all_in_checker = true,
+                     rebuild = false, cur_checker = false, cur_frames = false;
+                auto close = [&] {
+                    // an access whose stack could not be restored (no frames) says nothing
+                    if (in_access && cur_frames)
+                    {
+                        any_access = true;
+                        all_in_checker = all_in_checker && cur_checker;
+                    }
+                    in_access = false;
+                    cur_checker = false;
+                    cur_frames = false;
+                };
+                while (std::getline(is2, line))
+                {
+                    bool hdr = line.size() > 2 && line[2] != ' ' && line[0] == ' ';
+                    if (hdr)
+                    {
+                        close();
+                        // "Write of size", "Previous read of size", "Read of size",
+                        // "Previous atomic write" ... are the two accesses; "Location is",
+                        // "Thread T1 ... created by", "Mutex ..." are not
+                        std::string t = line.substr(2);
+                        in_access = (t.rfind("Read of", 0) == 0 || t.rfind("Write of", 0) == 0
+                                     || t.rfind("Previous ", 0) == 0 || t.rfind("Atomic ", 0) == 0)
+                                    && t.find(" of size ") != std::string::npos
+                                    && t.find(" by ") != std::string::npos;
+                        continue;
+                    }
+                    if (in_access && line.find("    #") == 0)
+                    {
+                        cur_frames = true;
+                        if (line.find("StatusChecker::") != std::string::npos)
+                            cur_checker = true;
+                        if (line.find("StatusChecker::begin_run_impl") != std::string::npos)
+                            rebuild = true;
+                    }
+                }
+                close();
+                if (any_access && all_in_checker && rebuild)
+                    r.signature = "tsan:StatusChecker::begin_run_impl-rebuilds-shared-data-per-stream";
+            }
             out.push_back(r);
         }
     }
@@ -125,9 +231,8 @@ static std::vector<RaceReport> read_tsan_reports()
 static void part_tsan(vf::Run& R)
 {
     bool const thorough = R.thorough();
-    std::vector<Variant> variants = {{"rec", false, TrackOrder::none},
-                                     {"calo", true, TrackOrder::init_charge},
-                                     {"recsort", false, TrackOrder::reindex_particle_type}};
+    celeritas::verif::g_yield = &rendezvous_hook;
+    std::vector<Variant> variants = all_variants();
     unsigned const slots = 4;
     uint64_t outer = 0;
     // (T, assignment) cases: assignment[e] = stream of event e
@@ -155,33 +260,52 @@ static void part_tsan(vf::Run& R)
         }
     }
     for (unsigned T : {4u, 8u, 16u})
-    {
-        std::vector<unsigned> a;
-        for (unsigned e = 0; e < T; ++e)
-            a.push_back(e);
-        cases.push_back({T, a});
-    }
-    int const reps = thorough ? 10 : 2;
+        for (unsigned rot : {0u, 1u})
+        {
+            // quick: T=4 identity + rotated, T=8 identity, T=16 rotated
+            if (!thorough && ((T == 8 && rot == 1) || (T == 16 && rot == 0)))
+                continue;
+            std::vector<unsigned> a;
+            for (unsigned e = 0; e < T; ++e)
+                a.push_back((e + rot) % T);
+            cases.push_back({T, a});
+        }
+    // with the rendezvous one repetition already overlaps every begin-run action and the first
+    // step iteration of all streams; more repetitions sample different OS schedules of the rest
+    int const reps = thorough ? 5 : 1;
     std::set<std::string> reported;
     for (auto const& v : variants)
     {
         // serial reference on a separate CoreParams instance
         std::map<unsigned, uint64_t> ref_hash;
+        std::map<size_t, Tallies> ser_cache;  // per number of events (ref_hash[e] stays valid)
         for (auto const& cs : cases)
         {
+            // quick: the three newer variants run the T=3 assignments that keep all three
+            // streams busy only (thorough: everything)
+            if (!thorough && cs.T == 3 && (v.checker || v.along != AlongStep::linear_fluct
+                                           || v.order == TrackOrder::reindex_both_action)
+                && std::set<unsigned>(cs.assign.begin(), cs.assign.end()).size() < 3)
+                continue;
             if (!R.mine(outer++))
                 continue;
             if (R.expired())
                 return;
             std::string aid;
             for (unsigned s : cs.assign)
-                aid += std::to_string(s);
+                aid += (cs.T > 10 && !aid.empty() ? "." : "") + std::to_string(s);
             std::string cid = fmt("tsan:%s:T=%u:assign=%s", v.name, cs.T, aid.c_str());
             if (!R.want(cid))
                 continue;
             R.begin_case(cid, 900);
             // serial reference: same events, one stream, in event order
             Tallies ser;
+            // (the serial result depends on the variant and the number of events only)
+            if (auto it = ser_cache.find(cs.assign.size()); it != ser_cache.end())
+            {
+                ser = it->second;
+            }
+            else
             {
                 auto Ps = make_problem(v, 1, slots);
                 auto st = Ps->make_stepper(0);
@@ -194,6 +318,7 @@ static void part_tsan(vf::Run& R)
                     ref_hash[e] = h;
                 }
                 ser = tallies(*Ps);
+                ser_cache[cs.assign.size()] = ser;
             }
             for (int rep = 0; rep < reps; ++rep)
             {
@@ -202,7 +327,16 @@ static void part_tsan(vf::Run& R)
                 std::vector<char> okv(cs.assign.size(), 1);
                 std::vector<std::string> errs(cs.T);
                 std::atomic<unsigned> ready{0};
+                {
+                    std::lock_guard<std::mutex> lock(g_rv_mutex);
+                    for (auto& a : g_rv_arrived)
+                        a = 0;
+                }
+                g_rv_threads.store(cs.T);
+                g_rv_busy_threads.store(unsigned(std::set<unsigned>(cs.assign.begin(), cs.assign.end()).size()));
                 auto body = [&](unsigned t) {
+                    tl_rv_index = 0;
+                    tl_rv_step_index = 0;
                     try
                     {
                         // start together to maximise overlap of the lazy initialisation
@@ -228,6 +362,8 @@ static void part_tsan(vf::Run& R)
                     th.emplace_back(body, t);
                 for (auto& t : th)
                     t.join();
+                g_rv_threads.store(0);
+                g_rv_busy_threads.store(0);
                 R.count("evaluations");
                 R.count("transitions", cs.assign.size());
                 for (unsigned t = 0; t < cs.T; ++t)
